@@ -467,10 +467,16 @@ private:
 
     bool is_error( const bytes& resp, int code = -1 ) const { return resp.size() == 5 && resp[ 0 ] == 0x01 && ( code < 0 || resp[ 4 ] == code ); }
 
-    void expect_error( const char* property, const char* rule, const bytes& req, const bytes& resp, const std::set< int >& codes, const char* why )
+    // the value of a characteristic with a read handler and no_read_access: see the known finding 'handler-value-no-read-access'
+    bool unreadable_handler_value( const attr_desc& a ) const
+    {
+        return a.kind == a_value && a.chr >= 0 && !cfg_.chars[ a.chr ].readable && cfg_.chars[ a.chr ].handler_read;
+    }
+
+    void expect_error( const char* property, const char* rule, const bytes& req, const bytes& resp, const std::set< int >& codes, const char* why, const std::string& key_suffix = "" )
     {
         if ( !is_error( resp ) )
-            violate( property, rule, std::string( rule ) + " accepted", "request %s must be rejected (%s) but got %s", sim::hex( req.data(), std::min< std::size_t >( req.size(), 16 ) ).c_str(), why, sim::hex( resp.data(), std::min< std::size_t >( resp.size(), 16 ) ).c_str() );
+            violate( property, rule, std::string( rule ) + " accepted" + key_suffix, "request %s must be rejected (%s) but got %s", sim::hex( req.data(), std::min< std::size_t >( req.size(), 16 ) ).c_str(), why, sim::hex( resp.data(), std::min< std::size_t >( resp.size(), 16 ) ).c_str() );
         else if ( !codes.empty() && !codes.count( resp[ 4 ] ) )
         {
             std::string list;
@@ -518,7 +524,7 @@ private:
                 if ( !is_error( resp ) && m_.protected_attr( *a ) && !mc.encrypted )
                     violate( "C05", "protected-read", "protected-read", "handle 0x%04x requires encryption, the link is not encrypted, and the read was answered with %s", handle, sim::hex( resp.data(), std::min< std::size_t >( 12, resp.size() ) ).c_str() );
                 else
-                    expect_error( prop, opcode == 0x0a ? "read-rejected" : "read-blob-rejected", req, resp, r.any_error ? std::set< int >() : r.errors, "model: access not possible" );
+                    expect_error( prop, opcode == 0x0a ? "read-rejected" : "read-blob-rejected", req, resp, r.any_error ? std::set< int >() : r.errors, "model: access not possible", unreadable_handler_value( *a ) ? " handler-value-no-read-access" : "" );
                 break;
             }
             bytes expect{ static_cast< std::uint8_t >( opcode + 1 ) };
@@ -542,7 +548,7 @@ private:
                     if ( !is_error( resp ) && m_.protected_attr( *a ) && !mc.encrypted )
                         violate( "C05", "protected-read", "protected-read multiple", "handle 0x%04x requires encryption, the link is not encrypted, and Read Multiple answered %s", handle, sim::hex( resp.data(), std::min< std::size_t >( 12, resp.size() ) ).c_str() );
                     else
-                        expect_error( sec_property( r, mc ), "read-multiple-rejected", req, resp, r.any_error ? std::set< int >() : r.errors, "model: one of the handles cannot be read" );
+                        expect_error( sec_property( r, mc ), "read-multiple-rejected", req, resp, r.any_error ? std::set< int >() : r.errors, "model: one of the handles cannot be read", unreadable_handler_value( *a ) ? " handler-value-no-read-access" : "" );
                     failed = true;
                     break;
                 }
@@ -777,7 +783,7 @@ private:
             else if ( reads[ k ].ok && !reads[ k ].handler_called && reads[ k ].data != value )
                 violate( "C06", "read-by-type-value", "read-by-type-value", "Read By Type returned %s for handle 0x%04x, model %s", sim::hex( value.data(), std::min< std::size_t >( 16, value.size() ) ).c_str(), h, sim::hex( reads[ k ].data.data(), std::min< std::size_t >( 16, reads[ k ].data.size() ) ).c_str() );
             else if ( !reads[ k ].ok && !reads[ k ].handler_called )
-                violate( "C06", "read-by-type-permission", "read-by-type-permission", "Read By Type returned handle 0x%04x which cannot be read", h );
+                violate( "C06", "read-by-type-permission", unreadable_handler_value( *match[ k ] ) ? "read-by-type-permission handler-value-no-read-access" : "read-by-type-permission", "Read By Type returned handle 0x%04x which cannot be read", h );
             ++k;
         }
         sync_handler_counters();
@@ -1147,7 +1153,7 @@ private:
                 if ( ch.store->reads != m_.handler_reads[ i ] )
                 {
                     if ( !ch.readable && ch.store->reads > m_.handler_reads[ i ] )
-                        violate( "C06", "handler-calls", "handler-calls read of unreadable", "read handler of characteristic %zu (no read access) was called", i );
+                        violate( "C06", "handler-calls", "handler-calls read of unreadable handler-value-no-read-access", "read handler of characteristic %zu (no read access) was called", i );
                     m_.handler_reads[ i ] = ch.store->reads;
                     m_.fail_read[ i ] = ch.store->fail_read;
                 }
